@@ -439,7 +439,9 @@ _CONT_ONLY = "0,1,3,7,38,11,10,8,31,29,43"   # 43 = release (operation numbers: 
 CAT_EXTRA = {"buffer": [(["--prefix", "0,8,16", "--only", "3,4,5,7,33,34,38,12"], 5, 6)],   # definition, output, max_size 6: then only data and the loop
              "play": [(["--prefix", "29,29,0,30", "--only", "3,4,42,1,31,32,43"], 4, 5)],
              "blit": [(["--prefix", "29,8,0", "--only", "0,1,3,7,38,33,11,31,14,18,22,26,43"], 4, 5)],
-             "audiocont": [(["--prefix", "29,8,0", "--only", _CONT_ONLY], 5, 6)],
+             # second job: both inputs exist, the second one has its definition ("in2") and has just been selected by name (the first
+             # one is now the previous input, a crossblend is in progress): releases, data and reference buffers from there
+             "audiocont": [(["--prefix", "29,8,0", "--only", _CONT_ONLY], 5, 6), (["--prefix", "29,29,42,15", "--only", "31,32,38,3,0,1,8,43"], 4, 5)],
              # grid: grid input and grid output allocated, the output's output connected (30 sub.set_output)
              "grid": [(["--prefix", "29,29,30"], 4, 5)],
              # sync: sound subpipe allocated, both outputs connected, sound definition given
